@@ -16,6 +16,7 @@ import (
 	"crypto/sha1"
 	"fmt"
 	"os"
+	"runtime"
 	"runtime/debug"
 	"sync"
 	"sync/atomic"
@@ -227,8 +228,9 @@ func vsize() (int64, bool) {
 // two that piece lengths take (the allocator switches from the heap to
 // mappings of its own somewhere among them), 512 MiB worth of allocate/free
 // cycles must not grow the address space of the process by more than half of
-// that (the Go heap reserves address space 64 MiB at a time; a mapping that
-// is never unmapped costs the full 512 MiB).
+// that (the Go heap reserves address space 64 MiB at a time and is collected
+// every 32 cycles here, so it holds a few MiB of freed buffers at most; a
+// mapping that is never unmapped costs the full 512 MiB).
 func TestC03AllocReleased(t *testing.T) {
 	if _, ok := vsize(); !ok {
 		t.Skip("inconclusive: /proc/self/statm cannot be read")
@@ -240,6 +242,8 @@ func TestC03AllocReleased(t *testing.T) {
 			sizes = append(sizes, 1<<sh+d)
 		}
 	}
+	var maxGrowth int64
+	maxAt := 0
 	for _, n := range sizes {
 		before := alloc.Bytes()
 		cycle := func() {
@@ -255,19 +259,31 @@ func TestC03AllocReleased(t *testing.T) {
 		for i := 0; i < 16; i++ {
 			cycle()
 		}
+		runtime.GC()
 		v0, _ := vsize()
 		cycles := total / n
 		for i := 0; i < cycles; i++ {
 			cycle()
+			if i%32 == 31 {
+				// buffers the allocator took from the Go heap are given back by
+				// the collector, whenever it runs: make it run, so that what is
+				// measured is the allocator and not the collector's pace
+				runtime.GC()
+			}
 		}
+		runtime.GC()
 		v1, _ := vsize()
 		if got := alloc.Bytes(); got != before {
 			t.Fatalf("%d cycles of Alloc(%d)/Free: %d bytes reported as allocated, %d before", cycles, n, got, before)
+		}
+		if v1-v0 > maxGrowth {
+			maxGrowth, maxAt = v1-v0, n
 		}
 		if v1-v0 > total/2 {
 			t.Fatalf("%d cycles of Alloc(%d)/Free grew the address space of the process by %d MiB (%d MiB were allocated and freed in all, accounting back at %d): freed buffers of %d bytes are not given back to the system", cycles, n, (v1-v0)>>20, total>>20, alloc.Bytes(), n)
 		}
 		stats.Case(fmt.Sprintf("alloc-released/%d", n), true, "freed-buffer-returned-to-the-system")
 	}
+	t.Logf("largest growth of the address space over one size: %d MiB (size %d); limit %d MiB", maxGrowth>>20, maxAt, total/2>>20)
 	stats.Exhaustive("allocation sizes 2^16..2^24, each -4096, -1, 0, +1, +4096")
 }
